@@ -68,6 +68,32 @@ def Rec.content : Rec → List Byte
       (toDec org ++ renderRanges (r0 :: ranges)))))
   | .stack rest => tSTACK_ ++ rest
 
+/-! ### well-formedness of records -/
+
+/-- the list does not start with a space or tab (so that `space1` stops right before it) -/
+def NoLeadSp (l : List Byte) : Prop := ∀ b r, l = b :: r → isSpTab b = false
+
+/-- names as they occur in well-formed files: no `\n`, not ending in `\r`, not starting with a blank
+(the separator before a name is `space1`, which would swallow it), valid UTF-8 -/
+structure NameOk (name : List Byte) : Prop where
+  noNl : (10 : Byte) ∉ name
+  noCrEnd : name.getLast? ≠ some 13
+  noLead : NoLeadSp name
+  utf8 : validUtf8 name = true
+
+/-- field bounds and name conditions of a well-formed record -/
+def Rec.ok : Rec → Prop
+  | .info rest => (10 : Byte) ∉ rest ∧ (tINFO_ ++ rest).getLast? ≠ some 13
+  | .file idx name => idx < pow32 ∧ NameOk name
+  | .origin idx name => idx < pow32 ∧ NameOk name
+  | .pub _ addr psize name => addr < pow64 ∧ psize < pow32 ∧ NameOk name
+  | .func _ addr size psize name => addr < pow32 ∧ size < pow32 ∧ psize < pow32 ∧ NameOk name
+  | .line addr size ln fl => addr < pow32 ∧ size < pow32 ∧ ln < pow32 ∧ fl < pow32
+  | .inline depth callLine callFile org r0 ranges =>
+    depth < pow32 ∧ callLine < pow32 ∧ callFile < pow32 ∧ org < pow32 ∧
+      ∀ r ∈ r0 :: ranges, r.1 < pow32 ∧ r.2 < pow32
+  | .stack rest => (10 : Byte) ∉ rest ∧ (tSTACK_ ++ rest).getLast? ≠ some 13
+
 /-- PUBLIC / FUNC / INFO / STACK records end a FUNC block -/
 def Rec.isCloser : Rec → Bool
   | .pub .. | .func .. | .info _ | .stack _ => true
@@ -132,10 +158,13 @@ def specOrigins : List (Nat × SLine) → List FEntry
     | .origin idx _ => ⟨idx, l.r.content.length, off⟩ :: specOrigins rest
     | _ => specOrigins rest
 
-def specModInfo (s : SymFile) : List Byte :=
-  s.lines.foldl (fun acc l => match l.r with
-    | .info _ => acc ++ 10 :: l.r.content
-    | _ => acc) s.moduleLine
+def infoStep (acc : List Byte) (l : SLine) : List Byte :=
+  match l.r with
+  | .info _ => acc ++ 10 :: l.r.content
+  | _ => acc
+
+/-- the MODULE line followed by `\n` + line for every INFO record -/
+def specModInfo (s : SymFile) : List Byte := s.lines.foldl infoStep s.moduleLine
 
 /-- insertion sort by key (the specification of "sorted by address / index") -/
 def insertBy {α : Type} (key : α → Nat) (x : α) : List α → List α
@@ -149,6 +178,43 @@ def specIndex (s : SymFile) : Index :=
   let syms := sortBy (·.1) (specSymbols (render s).length (olines s))
   ⟨specModInfo s, sortBy (·.index) (specFiles (olines s)), sortBy (·.index) (specOrigins (olines s)),
    syms.map (·.1), syms.map (·.2)⟩
+
+/-! ### well-formedness of a file, index part -/
+
+def symAddrs : List SLine → List Nat
+  | [] => []
+  | l :: rest =>
+    match l.r with
+    | .pub _ addr _ _ => (addr % pow32) :: symAddrs rest
+    | .func _ addr _ _ _ => addr :: symAddrs rest
+    | _ => symAddrs rest
+
+def fileIdxs : List SLine → List Nat
+  | [] => []
+  | l :: rest =>
+    match l.r with
+    | .file idx _ => idx :: fileIdxs rest
+    | _ => fileIdxs rest
+
+def originIdxs : List SLine → List Nat
+  | [] => []
+  | l :: rest =>
+    match l.r with
+    | .origin idx _ => idx :: originIdxs rest
+    | _ => originIdxs rest
+
+/-- what the index part of the reading theorem needs: a MODULE line the MODULE grammar accepts, records
+with fields in range and sane names, distinct symbol addresses / FILE ids / INLINE_ORIGIN ids, and a file
+shorter than 4 GiB (the index stores line and block lengths as `u32`) -/
+structure WFIndex (s : SymFile) : Prop where
+  moduleOk : (moduleLine s.moduleLine).isSome = true
+  moduleNoNl : (10 : Byte) ∉ s.moduleLine
+  moduleEnds : s.moduleLine.getLast? ≠ some 13
+  recs : ∀ l ∈ s.lines, l.r.ok
+  symDistinct : (symAddrs s.lines).Nodup
+  fileDistinct : (fileIdxs s.lines).Nodup
+  originDistinct : (originIdxs s.lines).Nodup
+  small : (render s).length < pow32
 
 /-! ### direct reading -/
 
